@@ -68,6 +68,68 @@ Proof. destruct h as [|ty hp|]; try reflexivity. destruct ty; reflexivity. Qed.
 Lemma ptype_scheme_supported ty : ptype_of_scheme (ptype_scheme ty) = Some ty.
 Proof. destruct ty; reflexivity. Qed.
 
+(* ------------------------------------------------------------------ the Dialer's retry loop *)
+Lemma dial_redirect_nil addr : dial_redirect [] addr = addr.
+Proof. unfold dial_redirect. destruct (split_host_port addr) as [[h p]|]; reflexivity. Qed.
+
+(* with the redirect outside the loop every attempt uses the address the loop was entered with, for every
+   number of attempts and EVERY sequence of outcomes *)
+Lemma dial_loop_same rules n : forall outcomes a,
+  dial_loop rules false n outcomes a =
+  (repeat a (fst (tries n outcomes)), if snd (tries n outcomes) then Some a else None).
+Proof.
+  induction n as [|n IH]; intros outcomes a; [reflexivity|].
+  cbn [dial_loop tries]. destruct outcomes as [|[|] r]; cbn [tl]; try reflexivity;
+    rewrite IH; destruct (tries n _) as [k ok]; reflexivity.
+Qed.
+
+Lemma dialer_once rules attempts outcomes addr :
+  redirect_in_retry_loop = false ->
+  dialer_dial rules attempts outcomes addr =
+  (repeat (dial_redirect rules addr) (fst (tries (effective_attempts attempts) outcomes)),
+   if snd (tries (effective_attempts attempts) outcomes) then Some (dial_redirect rules addr) else None).
+Proof. intros H. unfold dialer_dial. rewrite H. apply dial_loop_same. Qed.
+
+Lemma tries_bound n outcomes : (fst (tries n outcomes) <= n)%nat.
+Proof.
+  revert outcomes; induction n as [|n IH]; intros outcomes; [apply le_n|].
+  cbn [tries]. destruct outcomes as [|[|] r]; cbn [tl fst]; try lia;
+    specialize (IH r) + specialize (IH []); destruct (tries n _); cbn [fst] in *; lia.
+Qed.
+
+Lemma tries_positive n outcomes : (1 <= n)%nat -> (1 <= fst (tries n outcomes))%nat.
+Proof.
+  destruct n as [|n]; [lia|]. intros _. cbn [tries].
+  destruct outcomes as [|[|] r]; cbn [tl fst]; try lia; destruct (tries n _); cbn [fst]; lia.
+Qed.
+
+Lemma effective_attempts_pos n : (1 <= effective_attempts n)%nat.
+Proof. destruct n; cbn; lia. Qed.
+
+Lemma map_repeat_ev a k : map EvDial (repeat a k) = repeat (EvDial a) k.
+Proof. induction k as [|k IH]; [reflexivity|]. cbn [repeat map]. rewrite IH. reflexivity. Qed.
+
+(* the scripted environments: k failures, then a success *)
+Lemma tries_scripted n k :
+  tries n (repeat false k ++ [true]) = if Nat.ltb k n then (S k, true) else (n, false).
+Proof.
+  revert k; induction n as [|n IH]; intros k; [reflexivity|].
+  destruct k as [|k]; [reflexivity|]. cbn [repeat app tries tl]. rewrite IH.
+  change (Nat.ltb (S k) (S n)) with (Nat.ltb k n). destruct (Nat.ltb k n); reflexivity.
+Qed.
+
+(* the other source shape (redirect inside the loop) sends a retry somewhere else: with rules A->B, B->C and a
+   failing first attempt the second attempt goes to C *)
+Lemma redirect_in_loop_refuted :
+  exists rules outcomes addr a1 a2,
+    fst (dial_loop rules true 2 outcomes addr) = [a1; a2] /\ a1 <> a2 /\
+    fst (dial_loop rules false 2 outcomes (dial_redirect rules addr)) = [a1; a1].
+Proof.
+  exists [mkrule (b "a.test") [] (b "b.test") []; mkrule (b "b.test") [] (b "c.test") []],
+         [false; true], (b "a.test:80"), (b "b.test:80"), (b "c.test:80").
+  split; [reflexivity|]. split; [discriminate | reflexivity].
+Qed.
+
 Section Route.
   Hypothesis Hsw : connect_switch =
     [(b "http", b "connectHTTP"); (b "https", b "connectHTTP"); (b "socks5", b "connectSOCKS5")].
@@ -260,29 +322,66 @@ Section Route.
   Qed.
 
   (* ---------------- one exchange: a single recipient ---------------- *)
-  Lemma exchange_is_spec cfg rules t attempts failures :
-    cfg_wf cfg -> exchange cfg rules t attempts failures = spec_exchange cfg rules t attempts failures.
-  Proof. intros Hwf. unfold exchange, spec_exchange. rewrite (route_is_spec _ _ _ Hwf). reflexivity. Qed.
-
-  Theorem single_recipient cfg rules t attempts failures :
-    cfg_wf cfg ->
-    match spec_route cfg rules t with
-    | OFail => exchange cfg rules t attempts failures = []
-    | OSent a tls w nm =>
-        (forall e, In e (exchange cfg rules t attempts failures) -> event_addr e = a) /\
-        (exists n, (1 <= n)%nat /\
-           (exchange cfg rules t attempts failures = repeat (EvDial a) n ++ [EvUse a tls w nm] \/
-            exchange cfg rules t attempts failures = repeat (EvDial a) n))
+  (* the rules only act in the Dialer: routing with a rule list = routing with none, then mapping the address *)
+  Lemma route_rules cfg rules t :
+    route cfg rules t =
+    match route cfg [] t with
+    | OFail => OFail
+    | OSent a tls w n => OSent (dial_redirect rules a) tls w n
     end.
   Proof.
-    intros Hwf. unfold exchange. rewrite (route_is_spec _ _ _ Hwf).
+    unfold route. destruct Hshared as [-> ->].
+    destruct (t_kind t); destruct (proxy_for cfg t) as [|sch hp|];
+      unfold route_connect, route_plain; rewrite ?dial_redirect_nil; try reflexivity.
+    - cbv zeta. rewrite ?dial_redirect_nil. destruct (mem sch transport_socks_schemes); [reflexivity|].
+      destruct (str_eqb (t_scheme t) (b "http")); reflexivity.
+    - destruct (connect_handler sch) as [h|]; [|reflexivity].
+      destruct (str_eqb h (b "connectSOCKS5")); rewrite ?dial_redirect_nil; reflexivity.
+  Qed.
+
+  Hypothesis Hdial : redirect_in_retry_loop = false.
+
+  Theorem exchange_o_is_spec cfg rules t attempts outcomes :
+    cfg_wf cfg -> exchange_o cfg rules t attempts outcomes = spec_exchange_o cfg rules t attempts outcomes.
+  Proof.
+    intros Hwf. unfold exchange_o, spec_exchange_o. rewrite <- (route_is_spec _ _ _ Hwf), (route_rules cfg rules t).
+    destruct (route cfg [] t) as [|a0 tls w n]; [reflexivity|].
+    rewrite (dialer_once rules attempts outcomes a0 Hdial). cbn [fst snd].
+    destruct (tries (effective_attempts attempts) outcomes) as [k ok]. cbn [fst snd].
+    rewrite map_repeat_ev. destruct ok; reflexivity.
+  Qed.
+
+  Lemma exchange_is_spec cfg rules t attempts failures :
+    cfg_wf cfg -> exchange cfg rules t attempts failures = spec_exchange cfg rules t attempts failures.
+  Proof.
+    intros Hwf. unfold exchange. rewrite (exchange_o_is_spec _ _ _ _ _ Hwf). unfold spec_exchange_o, spec_exchange.
+    destruct (spec_route cfg rules t) as [|a tls w n]; [reflexivity|].
+    rewrite tries_scripted. destruct (Nat.ltb failures (effective_attempts attempts)); cbn [fst snd];
+      [reflexivity | rewrite app_nil_r; reflexivity].
+  Qed.
+
+  (* one exchange contacts one party, whatever the socket layer answers to the attempts *)
+  Theorem single_recipient cfg rules t attempts outcomes :
+    cfg_wf cfg ->
+    match spec_route cfg rules t with
+    | OFail => exchange_o cfg rules t attempts outcomes = []
+    | OSent a tls w nm =>
+        (forall e, In e (exchange_o cfg rules t attempts outcomes) -> event_addr e = a) /\
+        (exists n, (1 <= n <= effective_attempts attempts)%nat /\
+           (exchange_o cfg rules t attempts outcomes = repeat (EvDial a) n ++ [EvUse a tls w nm] \/
+            exchange_o cfg rules t attempts outcomes = repeat (EvDial a) n))
+    end.
+  Proof.
+    intros Hwf. rewrite (exchange_o_is_spec _ _ _ _ _ Hwf). unfold spec_exchange_o.
     destruct (spec_route cfg rules t) as [|a tls w nm]; [reflexivity|].
-    destruct (Nat.ltb failures (effective_attempts attempts)); split.
-    - intros e He. apply in_app_or in He as [He|[<-|[]]]; [|reflexivity].
-      apply repeat_spec in He. subst e. reflexivity.
-    - exists (S failures). split; [lia|]. left. reflexivity.
-    - intros e He. apply repeat_spec in He. subst e. reflexivity.
-    - exists (effective_attempts attempts). split; [destruct attempts; cbn; lia|]. right. reflexivity.
+    pose proof (tries_bound (effective_attempts attempts) outcomes) as Hb.
+    assert (Hp : (1 <= fst (tries (effective_attempts attempts) outcomes))%nat)
+      by (apply tries_positive; destruct attempts; cbn; lia).
+    destruct (tries (effective_attempts attempts) outcomes) as [k ok]. cbn [fst snd] in *. split.
+    - intros e He. apply in_app_or in He as [He|He].
+      + apply repeat_spec in He. subst e. reflexivity.
+      + destruct ok; [destruct He as [<-|[]]; reflexivity | destruct He].
+    - exists k. split; [lia|]. destruct ok; [left; reflexivity | right; apply app_nil_r].
   Qed.
 End Route.
 
@@ -298,6 +397,8 @@ Definition ex_rules : list rule := [mkrule (b "pa.test") [] (b "10.0.0.9") []; m
 Definition ex_cfg_static : config :=
   {| c_upfunc := None; c_upstream := Some (b "socks5", join_host_port (b "pa.test") (b "1080")); c_pac := None;
      c_direct := None; c_lh_mode := b "deny"; c_is_localhost := fun _ => false; c_idna := fun h => h; c_puny := fun h => h |}.
+Definition ex_rules_chain : list rule :=
+  [mkrule (b "a.test") [] (b "b.test") []; mkrule (b "b.test") [] (b "c.test") []].
 Lemma socks5_supported : ptype_of_scheme (b "socks5") <> None.
 Proof. discriminate. Qed.
 Lemma ex_pac_ascii : forall p t s, c_pac ex_cfg = Some p -> p t = PacOk s -> is_ascii s = true.
